@@ -153,6 +153,10 @@ class SynthDef(metaclass=MetaSynthDef):
                 _libsc3.main._current_synthdef = self
                 self._init_build()
                 self._build_ugen_graph(func, rates, prepend)
+                # Positional arguments of __call__ are the controls of func,
+                # not its prepended parameters nor the ones of wrapped funcs.
+                names = list(inspect.signature(func).parameters.keys())
+                self._callable_args = names[len(utl.as_list(prepend)):]
                 self._finish_build()
                 self._func = func
                 _libsc3.main._current_synthdef = None
@@ -221,7 +225,6 @@ class SynthDef(metaclass=MetaSynthDef):
             raise TypeError('func argument is not a function')
 
         sig = inspect.signature(func)
-        self._callable_args = list(sig.parameters.keys())
         params = list(sig.parameters.values())
 
         if not params:
